@@ -126,25 +126,14 @@ theorem localState_carries {V : Type} (nd : Node V) (k : String) (e : Entry V) (
 
 /-! ## histories -/
 
-/-- along a run without restarts every node's store only grows -/
-theorem run_mono (hU : Univ U) (hT : TombClosed U) {cfg : Cfg} (hcfg : cfg.lit = 0) (es : List (Event Desc))
-    {c : Cluster Desc} (hinv : Inv U c) (hes : GoodRun U cfg c es) (hnr : ∀ e ∈ es, notRestart e) (i : Nat) :
-    StoreLe (nstore c i) (nstore (runC cfg c es) i) := by
-  induction es generalizing c with
-  | nil => exact StoreLe.refl _
-  | cons e es ih =>
-    rw [runC_cons]
-    exact (step_mono hU hT hcfg hinv e hes.1 (hnr e (by simp)) i).trans
-      (ih (inv_step hU hT hcfg hinv e hes.1) hes.2 (fun x hx => hnr x (by simp [hx])))
-
 /-- once node `i` holds the tombstone of `x` with timestamp `t`, whatever is delivered later (any
 message, any order, any number of times, full-state exchanges, local updates), `x` is never visible
 there again with a timestamp ≤ `t` — and every entry produced before the removal has such a timestamp -/
 theorem no_resurrection (hU : Univ U) (hT : TombClosed U) {cfg : Cfg} (hcfg : cfg.lit = 0) (es : List (Event Desc))
-    {c : Cluster Desc} (hinv : Inv U c) (hes : GoodRun U cfg c es) (hnr : ∀ e ∈ es, notRestart e) (i : Nat) (key x : String)
+    {c : Cluster Desc} (hinv : Inv U c) (hes : GoodRun U cfg c es) (i : Nat) (hnr : ∀ e ∈ es, notRestartOf i e) (key x : String)
     (e : Inst) (he : get? (nval c i key) x = some e) (hleft : e.state = .LEFT) (e' : Inst)
     (he' : get? (nval (runC cfg c es) i key) x = some e') : e'.state = .LEFT ∨ e'.ts > e.ts := by
-  have := run_mono hU hT hcfg es hinv hes hnr i key x
+  have := run_mono hU hT hcfg es hinv hes i hnr key x
   unfold nval at he he'
   rw [he, he', rkO_some, rkO_some] at this
   unfold rk at this
